@@ -259,22 +259,53 @@ func verifConc(ab, ba []bpv7.Bundle, mtu uint64) []string {
 	defer close(done)
 	var mu sync.Mutex
 	var wireAB, wireBA []string
+	// A tap is an unbounded FIFO (like the buffered switch + TCP connection of the real client): it
+	// never makes the sending manager wait for the receiving one.
 	tap := func(from chan msgs.Message, to chan msgs.Message, logp *[]string) {
-		for {
-			select {
-			case <-done:
-				return
-			case m := <-from:
-				if s, ok := m.(*msgs.DataTransmissionMessage); ok {
-					mu.Lock()
-					*logp = append(*logp, fmt.Sprintf("%d:%d:%s", s.TransferId, uint8(s.Flags), verifHex(s.Data)))
-					mu.Unlock()
-				}
+		var qmu sync.Mutex
+		var q []msgs.Message
+		sig := make(chan struct{}, 1)
+		go func() {
+			for {
 				select {
-				case to <- m:
 				case <-done:
 					return
+				case m := <-from:
+					if s, ok := m.(*msgs.DataTransmissionMessage); ok {
+						mu.Lock()
+						*logp = append(*logp, fmt.Sprintf("%d:%d:%s", s.TransferId, uint8(s.Flags), verifHex(s.Data)))
+						mu.Unlock()
+					}
+					qmu.Lock()
+					q = append(q, m)
+					qmu.Unlock()
+					select {
+					case sig <- struct{}{}:
+					default:
+					}
 				}
+			}
+		}()
+		for {
+			qmu.Lock()
+			var m msgs.Message
+			if len(q) > 0 {
+				m = q[0]
+				q = q[1:]
+			}
+			qmu.Unlock()
+			if m == nil {
+				select {
+				case <-done:
+					return
+				case <-sig:
+				}
+				continue
+			}
+			select {
+			case to <- m:
+			case <-done:
+				return
 			}
 		}
 	}
